@@ -10,7 +10,11 @@ CONSTANTS NFields, FLen
 VARIABLES cfg, recs, via, done
 vars == <<cfg, recs, via, done>>
 
+\* the default separators, a multi-byte one, and a one-byte custom one (so that already with one-byte
+\* fields a value can consist of the configured separator and nothing else that forces quoting)
 RTMenu == {m \in CfgMenu : m.name \in {"csv", "tsv", "csv-eacute"}}
+          \cup {[name |-> "csv-bar", sep |-> <<BAR>>, comment |-> <<>>, header |-> FALSE],
+                [name |-> "csv-semicolon", sep |-> <<SEMI>>, comment |-> <<>>, header |-> FALSE]}
 Alpha(sep) == {c_a, DQ, LF, SP} \cup {sep[j] : j \in 1..Len(sep)}
 Lists(sep) == UNION {[1..m -> StrUpTo(Alpha(sep), FLen)] : m \in 1..NFields}
 Seconds == { << <<>> >>, << <<c_a>>, <<LF>> >>, << <<DQ>>, <<>> >>, << <<BSL, DOT>> >> }
